@@ -50,7 +50,7 @@ def parseDurOp (s : String) : Option Op :=
 /-- why did the monitor reject? (diagnostics only) -/
 def whyBad (d : Disk) (op : Op) : String :=
   match op with
-  | .appendWal n _ => s!"appendWal {n}: wal numbers {walNumbers d}, recovered walNo {(recover d).map (·.walNo)}"
+  | .appendWal n _ => s!"appendWal {n}: wal numbers {walNumbers d}, non-empty {(d.wals.filter fun w => !w.2.isEmpty).map Prod.fst}, recovered walNo {(recover d).map (·.walNo)}"
   | .removeWal n => s!"removeWal {n}: recovered walNo {(recover d).map (·.walNo)}"
   | .removeTable t => s!"removeTable {t}: version {(recover d).map (·.version)}"
   | .completeTable t _ => s!"completeTable {t}: already referenced by the version"
